@@ -597,7 +597,9 @@ func (x *rgen) block(depth int, inLoop, inCatch, guarded bool) []Stmt {
 }
 
 func randCase(r *vh.Rand) Case {
+	// calls are functions, or (every second program) functions, methods, static methods, closures and constructors
 	x := &rgen{r: r, g: randGraph(r), budget: 14 + r.Intn(30)}
+	x.vias = r.Chance(50)
 	depth := 1 + r.Intn(4)
 	return Case{G: x.g, Prog: x.block(depth, false, false, false), Tag: "random"}
 }
